@@ -49,18 +49,18 @@ type Unit struct {
 }
 
 type Exec struct {
-	recovering bool // executing deferred calls after a panic: recover() returns a non-nil value
-	localTyp map[string]types.Type // scalar frame cells: key -> Go type
-	u       *Universe
-	prog    *ssa.Program
-	pkgs    map[string]*packages.Package
-	spkgs   map[string]*ssa.Package
-	db      *ContractDB
-	unit    *Unit
-	stack   []*ssa.Function
-	owners  map[string]types.Type
-	callOrd map[string]int
-	fset    *token.FileSet
+	recovering bool                  // executing deferred calls after a panic: recover() returns a non-nil value
+	localTyp   map[string]types.Type // scalar frame cells: key -> Go type
+	u          *Universe
+	prog       *ssa.Program
+	pkgs       map[string]*packages.Package
+	spkgs      map[string]*ssa.Package
+	db         *ContractDB
+	unit       *Unit
+	stack      []*ssa.Function
+	owners     map[string]types.Type
+	callOrd    map[string]int
+	fset       *token.FileSet
 	// hooks
 	unitSuffix  string
 	typeRename  [2]string
@@ -127,12 +127,12 @@ type frame struct {
 	deferGuard string
 	deferCount int
 	recovered  *retInfo // the exit taken after a deferred function recovered from a panic
-	loops    map[*ssa.BasicBlock]*loopRec
-	allocKey map[*ssa.Alloc]string
-	id       int
-	specVars map[string]Val // lets
-	rangeIt  map[ssa.Value]*rangeState
-	visited  map[*ssa.BasicBlock]bool
+	loops      map[*ssa.BasicBlock]*loopRec
+	allocKey   map[*ssa.Alloc]string
+	id         int
+	specVars   map[string]Val // lets
+	rangeIt    map[ssa.Value]*rangeState
+	visited    map[*ssa.BasicBlock]bool
 }
 
 type rangeState struct {
